@@ -4,6 +4,7 @@ import (
 	"fmt"
 	"go/token"
 	"go/types"
+	"sort"
 
 	"golang.org/x/tools/go/ssa"
 )
@@ -87,6 +88,8 @@ func derivesFromField(v ssa.Value, fld *types.Var, depth int) bool {
 
 func ruleN(p *Program, r *Reporter) {
 	const id = "N-COVER"
+	defer ruleGGate(p, r)
+	defer ruleNPos(p, r)
 	fn := p.Fn("ovsdb", "", "ExpandNamedUUIDs")
 	opT := p.LookupType("ovsdb", "Operation")
 	expCol := p.Fn("ovsdb", "", "expandColumnNamedUUIDs")
@@ -95,12 +98,24 @@ func ruleN(p *Program, r *Reporter) {
 		return
 	}
 	st := opT.Underlying().(*types.Struct)
-	// calls that expand one value: expandColumnNamedUUIDs or expandNamedUUID
+	region := p.PrivateRegion(fn)
+	var regionFns []*ssa.Function
+	for g := range region {
+		regionFns = append(regionFns, g)
+	}
+	sort.Slice(regionFns, func(i, j int) bool { return regionFns[i].Pos() < regionFns[j].Pos() })
+	isExp := func(sc *ssa.Function) bool {
+		return sc != nil && (sc == expCol || sc.Name() == "expandNamedUUID" || sc.Name() == "expandColumnNamedUUIDs")
+	}
+	// calls that expand one value, in ExpandNamedUUIDs or its private helpers
 	var expCalls []*ssa.Call
-	for _, b := range fn.Blocks {
-		for _, ins := range b.Instrs {
-			if c, ok := ins.(*ssa.Call); ok {
-				if sc := c.Call.StaticCallee(); sc != nil && (sc == expCol || sc.Name() == "expandNamedUUID") {
+	for _, g := range regionFns {
+		if isExp(g) || (g.Parent() == nil && g != fn && g.Name() == "expandNamedUUIDAtomic") {
+			continue // the expansion functions themselves
+		}
+		for _, b := range g.Blocks {
+			for _, ins := range b.Instrs {
+				if c, ok := ins.(*ssa.Call); ok && isExp(c.Call.StaticCallee()) {
 					expCalls = append(expCalls, c)
 				}
 			}
@@ -111,7 +126,6 @@ func ruleN(p *Program, r *Reporter) {
 		return
 	}
 	storedBack := func(c *ssa.Call) bool {
-		// the expanded value (result 0) reaches a MapUpdate value or a Store
 		var res []ssa.Value
 		if _, isTuple := c.Type().(*types.Tuple); isTuple {
 			if refs := c.Referrers(); refs != nil {
@@ -150,7 +164,6 @@ func ruleN(p *Program, r *Reporter) {
 		covered, stored := false, false
 		var pos token.Pos = fn.Pos()
 		for _, c := range expCalls {
-			// the value argument (or the key/column argument) derives from this member
 			for _, a := range c.Call.Args {
 				if derivesFromField(a, f, 0) {
 					covered = true
@@ -170,60 +183,78 @@ func ruleN(p *Program, r *Reporter) {
 		}
 		r.Ob(id, funcName(fn), "member "+f.Name(), pos, ok, true, why)
 	}
-	// N-PHASE: all writes of the name map precede all reads
-	var nameMap *ssa.MakeMap
+	// N-PHASE: in ExpandNamedUUIDs no write of the name map can follow a substitution.
+	// The name map is the map[string]string handed to the substitution calls; it is written by
+	// map stores in this function, or by the helper call that builds/fills it.
+	isNameMap := func(v ssa.Value) bool {
+		m, ok := v.Type().Underlying().(*types.Map)
+		return ok && types.Identical(m.Key(), types.Typ[types.String]) && types.Identical(m.Elem(), types.Typ[types.String])
+	}
+	fc := newFlowCtx(fn)
+	var reads, writes []ssa.Instruction
 	for _, b := range fn.Blocks {
 		for _, ins := range b.Instrs {
-			if mm, ok := ins.(*ssa.MakeMap); ok {
-				if m, ok := mm.Type().Underlying().(*types.Map); ok && types.Identical(m.Key(), types.Typ[types.String]) && types.Identical(m.Elem(), types.Typ[types.String]) {
-					nameMap = mm
+			switch x := ins.(type) {
+			case *ssa.MapUpdate:
+				if isNameMap(x.Map) {
+					writes = append(writes, x)
+				}
+			case *ssa.Call:
+				sc := x.Call.StaticCallee()
+				passes := false
+				for _, a := range x.Call.Args {
+					if isNameMap(a) {
+						passes = true
+					}
+				}
+				switch {
+				case isExp(sc) && passes:
+					reads = append(reads, x)
+				case sc != nil && region[sc] && sc != fn && !isExp(sc):
+					// a private helper: writes the map it is given or returns
+					helperWrites := false
+					for _, hb := range sc.Blocks {
+						for _, hi := range hb.Instrs {
+							if mu, ok := hi.(*ssa.MapUpdate); ok && isNameMap(mu.Map) {
+								helperWrites = true
+							}
+						}
+					}
+					helperReads := false
+					for _, hb := range sc.Blocks {
+						for _, hi := range hb.Instrs {
+							if hc, ok := hi.(*ssa.Call); ok && isExp(hc.Call.StaticCallee()) {
+								helperReads = true
+							}
+						}
+					}
+					if helperWrites {
+						writes = append(writes, x)
+					}
+					if helperReads {
+						reads = append(reads, x)
+					}
 				}
 			}
 		}
 	}
-	if nameMap == nil {
-		r.Anchor("N-PHASE", "name map in ExpandNamedUUIDs")
-		return
-	}
-	fc := newFlowCtx(fn)
-	var writes, reads []ssa.Instruction
-	if refs := nameMap.Referrers(); refs != nil {
-		for _, ref := range *refs {
-			switch u := ref.(type) {
-			case *ssa.MapUpdate:
-				writes = append(writes, u)
-			case *ssa.Call:
-				// passed to the substitution
-				reads = append(reads, u)
-			case *ssa.Lookup:
-				// the duplicate-name test of pass 1 reads the map while building it: that read
-				// is part of the build phase when it controls a write (same loop body)
-				reads = append(reads, u)
-			}
-		}
-	}
-	nSubst := 0
 	for _, rd := range reads {
-		c, isCall := rd.(*ssa.Call)
-		if !isCall {
-			continue
-		}
-		nSubst++
 		ok := true
 		for _, w := range writes {
-			if fc.canFollow(rd, w) {
+			if w != rd && fc.canFollow(rd, w) {
 				ok = false
 			}
+			if w == rd {
+				ok = false // one helper both substitutes and defines names
+			}
 		}
-		r.Ob("N-PHASE", funcName(fn), "substitution after the name map is complete", c.Pos(), ok, true,
+		r.Ob("N-PHASE", funcName(fn), "substitution after the name map is complete", rd.Pos(), ok, true,
 			ifs(ok, "no write of the name map can follow this substitution: names defined by later inserts are already known (forward references work)",
 				"the name map can still be written after this substitution ran: a name defined by a later insert is not resolved here"))
 	}
-	if nSubst == 0 || len(writes) == 0 {
-		r.Anchor("N-PHASE", fmt.Sprintf("name map: %d writes, %d substitution reads", len(writes), nSubst))
+	if len(reads) == 0 || len(writes) == 0 {
+		r.Anchor("N-PHASE", fmt.Sprintf("name map: %d write events, %d substitution reads", len(writes), len(reads)))
 	}
-	ruleNPos(p, r)
-	ruleGGate(p, r)
 }
 
 // ruleNPos: the decision to expand a position depends only on that position's type.
